@@ -81,7 +81,22 @@ def check(run, ctx):
     V3 = run.rule("V3", "pattern lists consumed by the rule checker = pattern lists PatternValidator validates; validation ValueError is not swallowed up to _safe_check_rule", floor=6,
                   decides="a syntactically invalid pattern is rejected as a configuration error")
     consumed = _keys_used(repo, f"{PKG}.rule_checker.")
-    validated = _keys_used(repo, f"{PKG}.pattern_validator.")
+    # keys validated = keys touched by functions reachable from validate_config through self-calls
+    vcls = repo.cls(f"{PKG}.pattern_validator.PatternValidator")
+    seen_v, todo_v = set(), ["validate_config"]
+    while todo_v:
+        nm = todo_v.pop()
+        if nm in seen_v or nm not in vcls.methods:
+            continue
+        seen_v.add(nm)
+        for n in ast.walk(vcls.methods[nm].node):
+            if isinstance(n, ast.Call) and isinstance(n.func, ast.Attribute) and isinstance(n.func.value, ast.Name) and n.func.value.id == "self":
+                todo_v.append(n.func.attr)
+    validated = set()
+    for nm in seen_v:
+        for n in ast.walk(vcls.methods[nm].node):
+            if isinstance(n, ast.Subscript) and isinstance(n.slice, ast.Constant) and n.slice.value in ("directories", "global_deny", "global_patterns", "allow", "deny"):
+                validated.add(n.slice.value)
     for k in sorted(consumed):
         if k in validated:
             run.ok(V3, f"list:{k}", "consumed by the matcher and validated")
